@@ -35,12 +35,25 @@ import (
 	"verif/harness/world"
 )
 
-type params struct {
-	Stakes  []int64 `json:"stakes"`
-	NChains int     `json:"chains"`
-	Blocks  int     `json:"blocks"`
-	Focus   string  `json:"focus"` // weights profile: mixed | consensus | skyway | fees | gov
-	Hostile int     `json:"hostile_pct"`
+type params = Params
+
+// Params of one omnibus history (exported: the determinism monitor C08 drives the same workload).
+type Params struct {
+	Stakes     []int64 `json:"stakes"`
+	NChains    int     `json:"chains"`
+	Blocks     int     `json:"blocks"`
+	Focus      string  `json:"focus"` // weights profile: mixed | consensus | skyway | fees | gov
+	Hostile    int     `json:"hostile_pct"`
+	UseLevelDB bool    `json:"leveldb,omitempty"`
+	NoProbe    bool    `json:"no_probe,omitempty"`
+}
+
+// Hooks let another monitor observe the omnibus history block by block.
+type Hooks struct {
+	// AfterBringUp is called once the world is up.
+	AfterBringUp func(w *world.BridgeWorld)
+	// AfterBlock is called after every committed block with its result and the raw txs it contained.
+	AfterBlock func(w *world.BridgeWorld, br *chain.BlockResult, blockNo int)
 }
 
 type mon struct {
@@ -54,6 +67,8 @@ type mon struct {
 	stopped bool
 	relayTx map[uint64]*world.RemoteTx
 	lastOps []string
+	hooks   Hooks
+	blockNo int
 }
 
 var paloFrame = regexp.MustCompile(`github\.com/palomachain/paloma/v2/([^\s(]+(?:\(\*\w+\)\.\w+)?)`)
@@ -126,10 +141,15 @@ func (m *mon) note(s string) {
 func run(c fw.Case, tier string, rec *fw.Recorder) {
 	var p params
 	c.Decode(&p)
+	Drive(c, p, rec, Hooks{})
+}
+
+// Drive runs one omnibus history.
+func Drive(c fw.Case, p Params, rec *fw.Recorder, hooks Hooks) {
 	r := c.Rand()
 	chains := []string{"eth-main", "bnb-main"}[:p.NChains]
 	w, err := world.NewBridgeWorld(world.BridgeOpts{Prefix: fmt.Sprintf("c09-%d", c.Seed), Stakes: p.Stakes, NUsers: 3, Chains: chains,
-		FactorySubs: []string{"tka"}, MapUgrain: true, CaptureLog: true})
+		FactorySubs: []string{"tka"}, MapUgrain: true, CaptureLog: true, UseLevelDB: p.UseLevelDB})
 	if w != nil && w.C != nil {
 		defer w.C.Close()
 	}
@@ -137,7 +157,7 @@ func run(c fw.Case, tier string, rec *fw.Recorder) {
 		rec.Inconclusive("bring-up failed: " + err.Error())
 		return
 	}
-	m := &mon{rec: rec, r: r, w: w, c: w.C, p: p, evNonce: map[string]uint64{}, relayTx: map[uint64]*world.RemoteTx{}}
+	m := &mon{rec: rec, r: r, w: w, c: w.C, p: p, evNonce: map[string]uint64{}, relayTx: map[uint64]*world.RemoteTx{}, hooks: hooks}
 	// governance sets the treasury fees a live network has (needed for fee-paying messages)
 	_ = m.c.App.TreasuryKeeper.SetCommunityFundFee(m.c.Ctx(), "0.01")
 	_ = m.c.App.TreasuryKeeper.SetSecurityFee(m.c.Ctx(), "0.02")
@@ -146,14 +166,18 @@ func run(c fw.Case, tier string, rec *fw.Recorder) {
 		_ = m.c.App.EvmKeeper.PublishSnapshotToAllChains(m.c.Ctx(), snap, true)
 	}
 	rec.Sample(map[string]any{"params": p})
+	if hooks.AfterBringUp != nil {
+		hooks.AfterBringUp(w)
+	}
 	for b := 0; b < p.Blocks && !m.stopped; b++ {
+		m.blockNo = b
 		if b%300 == 5 {
 			w.KeepAlive()
 			m.block(true)
 		} else {
 			m.block(false)
 		}
-		if b%64 == 17 && !m.stopped {
+		if b%64 == 17 && !m.stopped && !p.NoProbe {
 			m.probe()
 		}
 	}
@@ -267,6 +291,9 @@ func (m *mon) block(valsBusy bool) {
 	br := c.NextBlockAfter(dt)
 	m.rec.Eval(1)
 	m.rec.Count("blocks", 1)
+	if m.hooks.AfterBlock != nil && br.Panic == "" && br.Err == nil {
+		m.hooks.AfterBlock(w, br, m.blockNo)
+	}
 	for _, cls := range []int64{10, 50, 300, 303} {
 		if br.Height%cls == 0 {
 			m.rec.Count(fmt.Sprintf("height_class_%%%d", cls), 1)
@@ -439,6 +466,9 @@ func (m *mon) pigeonMsg(v *chain.Account, kind string) (sdk.Msg, string) {
 			}
 		default:
 			lv := palomatypes.MsgAddStatusUpdate_Level(r.Intn(3))
+			if m.hostile() && r.Intn(3) == 0 {
+				lv = palomatypes.MsgAddStatusUpdate_Level([]int32{-1, 3, 7, 1 << 20}[r.Intn(4)])
+			}
 			return &palomatypes.MsgAddStatusUpdate{Status: "s", Level: lv, Metadata: world.Meta(v)}, "status-update"
 		}
 	}
